@@ -6,7 +6,8 @@ import time
 from . import build, facts
 
 VERIF = build.VERIF
-EVID = os.path.join(VERIF, "evidence")
+# evidence of runs against a scratch copy (mutation testing) never overwrites the real evidence
+EVID = os.path.join(VERIF, "evidence") if os.path.realpath(build.REPO) == "/repo" else os.path.join(build.WORK, "evidence-scratch")
 KNOWN = os.path.join(VERIF, "known_findings.json")
 FLOORS = os.path.join(VERIF, "tables", "floors.json")
 
